@@ -31,6 +31,7 @@ type listTemplate struct {
 	HangBefore int    // hanging comments are inserted before the last HangBefore lines of the element
 	Blank      bool   // separate chunks with a blank line (uniform)
 	Lists      func(f *dst.File) (a, b reflect.Value)
+	Qualified  bool // elements are package-qualified identifiers: decorated and restored with import management
 	NotC02     bool // a bracketed list that is not one of the sibling-list kinds C02 speaks about (round trips only)
 }
 
@@ -172,6 +173,24 @@ var listTemplates = []listTemplate{
 	}),
 }
 
+// qualifiedTemplates: lists whose elements are package-qualified identifiers (C02 only).
+var qualifiedTemplates = func() []listTemplate {
+	a := genDeclTemplate("CallExpr.Args(qualified)", "var %L = g(", func(id int) string { return fmt.Sprintf("lib.e%d,", id) }, func(f *dst.File) (reflect.Value, reflect.Value) {
+		get := func(d dst.Decl) reflect.Value {
+			return reflect.ValueOf(&d.(*dst.GenDecl).Specs[0].(*dst.ValueSpec).Values[0].(*dst.CallExpr).Args).Elem()
+		}
+		return get(f.Decls[1]), get(f.Decls[2])
+	})
+	b := genDeclTemplate("CompositeLit.Elts(qualified)", "var %L = []int{", func(id int) string { return fmt.Sprintf("lib.e%d,", id) }, func(f *dst.File) (reflect.Value, reflect.Value) {
+		get := func(d dst.Decl) reflect.Value {
+			return reflect.ValueOf(&d.(*dst.GenDecl).Specs[0].(*dst.ValueSpec).Values[0].(*dst.CompositeLit).Elts).Elem()
+		}
+		return get(f.Decls[1]), get(f.Decls[2])
+	})
+	a.Qualified, b.Qualified = true, true
+	return []listTemplate{a, b}
+}()
+
 // chunkLines renders one chunk.
 func (t listTemplate) chunkLines(c chunk) []string {
 	var out []string
@@ -198,6 +217,9 @@ func (t listTemplate) chunkLines(c chunk) []string {
 // text renders a file with lists a and b holding the given chunk sequences.
 func (t listTemplate) text(a, b []chunk, blank bool) string {
 	lines := []string{"package p", ""}
+	if t.Qualified {
+		lines = append(lines, "import \"example.com/lib\"", "")
+	}
 	emit := func(l string, cs []chunk) {
 		lines = append(lines, t.Open(l)...)
 		for i, c := range cs {
@@ -217,6 +239,9 @@ func (t listTemplate) text(a, b []chunk, blank bool) string {
 	emit("a", a)
 	if t.Name != "File.Decls" {
 		emit("b", b)
+	}
+	if t.Qualified {
+		lines = append(lines, "var keep = lib.K", "") // the import stays in use whatever is deleted
 	}
 	return strings.Join(lines, "\n")
 }
